@@ -183,3 +183,53 @@ def sizing_paths(ctx, cname):
                     fresh = e.value == ('dict', ())
         out.append({'path': p, 'loop': lp, 'bodies': bodies, 'container': container, 'fresh': fresh})
     return ps, out
+
+
+def table_refute(bodies, atoms, expected, grid):
+    """The sizing formula as a decision table.  `bodies` are the normal paths of the sizing loop's body (dicts with 'path' and 'quantity'); `atoms` maps the terms
+    the property speaks about (equity, weight, fee estimate, price, ...) to names; `grid` is a list of {name: Fraction}; `expected(point)` is the quantity the
+    property states.  For each point the paths whose conditions hold under the point are evaluated.
+    -> ('refuted', point, got, want, path)   one path, all of whose conditions were evaluated and hold, yields another quantity: the code deviates at that point
+       ('agrees', n_points)                  every point was evaluated on some path and gave the stated quantity (a table, not a proof)
+       ('unknown', why)                      some condition or quantity could not be evaluated"""
+    from ..symex import Valuation
+    names = {fmt(t): n for t, n in atoms.items()}
+    mention = lambda t: any(fmt(s_) in names for s_ in T.subterms(t))
+    npts = 0
+    for pt in grid:
+        nv = Valuation(nums={s: pt[n] for s, n in names.items()})
+        hit = False
+        for b in bodies:
+            bp, q = b['path'], b['quantity']
+            if bp.outcome == 'raise' or q is None:
+                continue
+            taken = True
+            for c, v, _ in bp.conds:
+                if c[0] == 'call' and c[1] == ('ext', 'ISNAN') and len(c[2]) == 1 and nv.value(c[2][0]) is not None:
+                    got = False
+                elif not mention(c):
+                    continue
+                else:
+                    got = nv.evalbool(c)
+                if got is None:
+                    return ('unknown', 'condition %s not evaluated at %s' % (fmt(c)[:80], _pt(pt)))
+                if got != v:
+                    taken = False
+                    break
+            if not taken:
+                continue
+            val = nv.value(q)
+            if val is None:
+                return ('unknown', 'quantity %s not evaluated at %s' % (fmt(q)[:80], _pt(pt)))
+            hit = True
+            want = expected(pt)
+            if val != want:
+                return ('refuted', _pt(pt), val, want, cond_str(bp)[:100])
+        if not hit:
+            return ('unknown', 'no sizing path is taken at %s' % _pt(pt))
+        npts += 1
+    return ('agrees', npts)
+
+
+def _pt(pt):
+    return ', '.join('%s=%s' % (k, float(v)) for k, v in sorted(pt.items()))
